@@ -522,24 +522,33 @@ def norm_slice(sl, n):
             if v < 0:
                 v = max(n + v, 0)
             return min(v, n)
+        c = CTX()
         if isinstance(v, int):
             if v < 0:
                 w = sym.add(n, v)
-                return sym.vmax(w, 0)
-            return sym.vmin(v, n)
-        w = ite(sym.cmp('<', v, 0), sym.vmax(sym.add(v, n), 0), sym.vmin(v, n))
-        return w
+                k = c.known(sym.cmp('>=', w, 0))
+                return w if k is True else (0 if k is False else sym.vmax(w, 0))
+            k = c.known(sym.cmp('<=', v, n))
+            return v if k is True else (n if k is False else sym.vmin(v, n))
+        neg = c.known(sym.cmp('<', v, 0))
+        if neg is False:
+            k = c.known(sym.cmp('<=', v, n))
+            return v if k is True else (n if k is False else sym.vmin(v, n))
+        if neg is True:
+            w = sym.add(v, n)
+            k = c.known(sym.cmp('>=', w, 0))
+            return w if k is True else (0 if k is False else sym.vmax(w, 0))
+        return ite(sym.cmp('<', v, 0), sym.vmax(sym.add(v, n), 0), sym.vmin(v, n))
     start = clampidx(a, 0)
     stop = clampidx(b, n)
     length = sym.sub(stop, start)
     if is_conc(length):
         length = max(length, 0)
     else:
-        # simplify common forms: n-1, n-k
-        lt = z3.simplify(zterm(length))
-        length = wrap(lt)
+        length = wrap(z3.simplify(zterm(length)))
         if not is_conc(length):
-            length = sym.vmax(length, 0) if not _nonneg_obvious(a, b) else length
+            k = CTX().known(sym.cmp('>=', length, 0))
+            length = length if k is True else (0 if k is False else sym.vmax(length, 0))
     return start, length
 
 
@@ -946,6 +955,12 @@ class _NP(object):
     def negative(self, x): return elementwise(lambda a: sym.sub(0, a), x)
     def floor(self, x): return elementwise(lambda a: wrap(z3.ToReal(z3.ToInt(zterm(a, True)))) if isinstance(a, SV) else a.__floor__(), x)
 
+    def isclose(self, a, b, rtol=Fraction(1, 10 ** 5), atol=Fraction(1, 10 ** 8)):
+        return elementwise(lambda u, v: sym.cmp('<=', sym.absv(sym.sub(u, v)), sym.add(atol, sym.mul(rtol, sym.absv(v)))), a, b, rdtype='bool')
+
+    def allclose(self, a, b, rtol=Fraction(1, 10 ** 5), atol=Fraction(1, 10 ** 8)):
+        return self.all(self.isclose(a, b, rtol, atol))
+
     def isfinite(self, x):
         # mathematical reals are always finite (DESIGN 3.1)
         return elementwise(lambda a: True, x, rdtype='bool')
@@ -1045,7 +1060,8 @@ class _NP(object):
             return Arr((n,), lambda i: select(out, i), x.dtype)
         c = CTX()
         j0 = SV(z3.Int('j0!canon'))
-        key = ('cumsum', zterm(_generic(n)).get_id(), zterm(_generic(f(j0)), True).get_id())
+        _b0 = zterm(_generic(f(j0)), True)
+        key = ('cumsum', zterm(_generic(n)).get_id(), _b0.get_id())
         memo_ = c.__dict__.setdefault('_cumsums', {})
         if key in memo_:
             m0 = memo_[key][0]
@@ -1059,7 +1075,7 @@ class _NP(object):
             sym.implies(sym.and_(i >= 1, i < n), SV(cs(zterm(i)) == cs(zterm(i) - 1) + zterm(f(i), True)))))
         a = Arr((n,), lambda i: SV(cs(zterm(_generic(i)))), 'real')
         a.cumsum_of = (n, f, cs)
-        memo_[key] = (a, f(j0))
+        memo_[key] = (a, _b0, n)
         return a
 
     def _minmax(self, x, axis, kind):
@@ -1462,17 +1478,39 @@ class _NP(object):
         raise Unsupported('argsort on symbolic keys')
 
     def interp(self, x, xp, fp, left=None, right=None):
-        """uninterpreted with the assumed contract of DESIGN 4: result between min/max of fp, >=0 for fp>=0"""
+        """uninterpreted, with the assumed contract of DESIGN 4: the result has the shape of x; if every ordinate
+        fp(j) >= 0 (checked silently here) and left/right are absent or >= 0, every result value is >= 0"""
         c = CTX()
         x, xp, fp = (to_arr(v) if isinstance(v, (list, tuple)) else v for v in (x, xp, fp))
-        F = c.fresh_fn('interp', 1, 'real')
-        c.trace.append('assumed-contract:np.interp')
-        fpf = fp.snap() if isinstance(fp, ArrBase) else None
+        if getattr(c, 'replay', False):
+            import numpy as np
+            from .replay import Bridge, nd_to_arr
+            br = Bridge(None)
+            r = np.interp(br.native(x), br.native(xp), br.native(fp), left=None if left is None else float(left), right=None if right is None else float(right))
+            return nd_to_arr(np.asarray(r)) if getattr(r, 'ndim', 0) else Fraction(float(r))
+        if 'assumed-contract:np.interp (shape of x; non-negative ordinates give non-negative values)' not in c.trace:
+            c.trace.append('assumed-contract:np.interp (shape of x; non-negative ordinates give non-negative values)')
+        nonneg = False
+        if isinstance(fp, ArrBase) and fp.ndim == 1:
+            j = c.fresh('ij', 'int')
+            g = sym.implies(sym.and_(j >= 0, sym.cmp('<', j, fp.shape[0])), sym.cmp('>=', fp.get(j), 0))
+            v, _m, _b, _r = sym.discharge(c.hyps([j]), sym.zbool(g) if isinstance(g, SV) else z3.BoolVal(bool(g)), 3000)
+            nonneg = v == 'proved' and (left is None or _generic(left) == 0) and (right is None or _generic(right) == 0)
         if isinstance(x, ArrBase):
-            res = Arr(x.shape, lambda *i: SV(F(*[zterm(j) for j in i])), 'real')
+            F = c.fresh_fn('interp', x.ndim, 'real')
+
+            def fn(*i):
+                v = SV(F(*[zterm(_generic(k)) for k in i]))
+                if nonneg:
+                    c.assume(v >= 0)
+                return v
+            res = Arr(x.shape, fn, 'real')
             res.interp_of = (x, xp, fp)
+            c.__dict__.setdefault('interps', []).append(res)
             return res
         r = c.fresh('interp')
+        if nonneg:
+            c.assume(r >= 0)
         return r
 
     def histogram(self, data, bins):
